@@ -219,8 +219,9 @@ Definition p_vs_tail : parser vs_tail :=
       '(w, l) <- p_u 1 l ;;
       if (w =? 0) || (8 <? w) then Err EFormat else
       '(dsz, l) <- p_u (N.to_nat w) l ;;
-      if 1000000 <? cnt then Err EFormat else       (* guard for the unary count below; real limit is the tail size *)
+      if 65535 <? cnt then Err EFormat else         (* the offsets are in the tail, at most 65535 bytes long *)
       '(offs, l) <- p_many (N.to_nat cnt - 1)%nat (p_u (N.to_nat w)) l ;;
+      if negb (forallb (fun o => o <=? dsz) offs) then Err EFormat else   (* every offset lies inside the store data *)
       Ok (VTIndexed (if cnt =? 0 then [dsz] else 0 :: offs ++ [dsz]) dsz, l)
     else Err EFormat.
 
